@@ -16,12 +16,16 @@ from harness import core
 from harness.props.c09 import fb, bf_, design, vclose, frame_of
 
 ID = 'C10'
-LEAN_MODULES = ['PydlVerif.Props.C10']
+LEAN_MODULES = ['PydlVerif.Props.C10']   # imports Lemmas/IterFit.lean (tie equivariance lemmas), audited with it
 P = 'PydlVerif.C10.'
 THEOREMS = [P + t for t in (
     'iterLoop_succ', 'iterLoop_zero', 'iterBody_spec', 'iterLoop_stops', 'qdone_unchanged',
     'iterBody_mask_le', 'iterLoop_mask_le', 'iterCore_mask', 'nonpositive_never_used', 'masked_weight', 'initial_weights_nonneg',
-    'maxiter_zero', 'perm_key', 'iterfit_perm')]
+    'maxiter_zero', 'perm_key', 'iterfit_perm',
+    # extension round: tied abscissae, clear outliers
+    'djsReject_equiv', 'normalSystem_equiv', 'action_rowinv', 'fit_same', 'fit_inv', 'fitEquiv_sorted', 'goodx_eq', 'iterBody_equiv',
+    'iterLoop_equiv', 'iterCore_equiv', 'iterCore_perm_ties', 'iterfit_perm_ties',
+    'clear_outlier_rejected', 'false_stays_false', 'clear_outlier_rejected_final')]
 RULE = ('cases = (n = 4..150 abscissae in caller order: sorted / reversed / shuffled, distinct or with ties) x (smooth signal + noise) x '
         '(0..k injected outliers of 20..300 sigma) x (invvar: constant / varying, with zero and negative entries) x (order 1..5) x '
         '(bkspace / nbkpts / everyn / explicit bkpt) x (lower, upper in {2.5, 3, 5, 10, None}) x (maxiter 0, 1, 2, 3, 10, 20); all '
@@ -311,9 +315,12 @@ def metamorphic(ctx, case, I, x, y, iv, tol, ys):
                 return
             same_curve = o2['ok']['bk'] == I['bk'] and vclose(o2['ok']['coeff'], coeff, tol, ys)
             same_mask = o2['ok']['outmask'] == om[s].tolist()
-            if case['ties'] and not (same_curve and same_mask):
-                ctx.count('perm:ties-differ(not judged)')
-                continue
+            if case['ties']:
+                # exact arithmetic: iterfit_perm_ties (same curve, permuted mask); in floating point the tied points enter the
+                # sums in another order, so a difference is a rounding matter and is counted, not judged
+                ctx.count('perm:ties-agree' if same_curve and same_mask else 'perm:ties-differ(not judged)')
+                if not (same_curve and same_mask):
+                    continue
             if not same_curve:
                 ctx.violate('iterfit:perm:curve-changes', 'permuting (x, y, invvar) changes the fitted curve', dict(case, s=s.tolist()))
                 return
@@ -382,8 +389,14 @@ def replay(ctx, case):
 
 LEVEL_TEXT = ('Machine-checked Lean 4 theorems over an executable model of iterfit (sort, initial mask invvar>0, object built from the good '
               'points, the fit - djs_reject - refit loop, un-sorting of the mask), for all data, weights, orders, breakpoint options, limits and '
-              'maxiter: iterfit_perm - for distinct abscissae and ANY sorting permutations argsort may return, permuting (x, y, invvar) by sigma '
-              'gives the identical spline object and outmask composed with sigma (errors included); nonpositive_never_used - unless iterfit gives up, '
+              'maxiter: iterfit_perm / iterfit_perm_ties - for ANY data (tied abscissae included) and ANY sorting permutations argsort may return '
+              '(they may order tied points differently), permuting (x, y, invvar) by sigma gives the identical spline object and outmask '
+              'composed with sigma (errors included): the sorted core is equivariant under every re-indexing tau of the work arrays that fixes '
+              'the sorted abscissae (iterCore_perm_ties: the assembled normal equations are sums over the points - normalSystem_equiv, fit_same - '
+              'yfit depends on x only - fit_inv - djs_reject is pointwise for the options iterfit uses - djsReject_equiv - the good abscissae '
+              'and hence the knots are the same list - goodx_eq); clear_outlier_rejected(_final) - a point the mask still had whose scaled '
+              'residual (y - yfit)*sqrt(invvar) against the curve of a status-0 pass is below -lower or above upper is False after that pass and '
+              '(false_stays_false) in the mask the loop ends with (C17 reject_mask); nonpositive_never_used - unless iterfit gives up, '
               'a point with invvar not > 0 is False in the returned mask (caller order), masks only decrease from pass to pass '
               '(iterLoop_mask_le), and masked points enter fit with weight exactly 0 (masked_weight; C09 fit_zero_weight); maxiter_zero - the '
               'loop is one pass with the weights invvar*(invvar>0), hence by C09 fit_optimum the weighted least-squares optimum of the positively '
@@ -393,9 +406,12 @@ LEVEL_TEXT = ('Machine-checked Lean 4 theorems over an executable model of iterf
               'run by I/O correspondence (breakpoints bit-exact, masks exact, coefficients within tolerance) and by an independent oracle: the '
               'documented procedure re-implemented with scipy design_matrix + numpy lstsq + a direct rejection rule, all permutations of small data '
               'sets and random permutations of larger ones, altered (x, y) at non-positively weighted points, maxiter=0, invvar=None.')
-LEVEL_NOTE = ('Partial: iterfit_perm needs distinct abscissae (with ties the tied points may swap their y/invvar in the work arrays; '
-              'iterfit_perm_partial is not stated - the harness counts such cases without judging); groupbadpix/maxrej, x2, requiren, oldset and '
-              'the branch "at most one good point left" (the code stores the int 0 as coefficients; the model refuses) are outside the model; when '
-              'iterfit gives up (fewer good points than nord, fit status -2) it returns the initial all-True mask - excluded from '
-              'nonpositive_never_used and from the oracle. The optimality statement rests on the C09 theorems (LAPACK by contract, Rows hypothesis). '
+LEVEL_NOTE = ('iterfit_perm_ties is an exact-arithmetic statement (the sums of fit are order-independent over a field); in floating point tied '
+              'points enter the sums in another order, so the harness counts tie cases (perm:ties-agree / perm:ties-differ) without judging a '
+              'difference. "Clear outlier" is proved per pass against the curve of that pass (no statement that an injected k-sigma outlier exceeds '
+              'the limit of the first fit - that depends on the data; the oracle checks the whole procedure on the real code). groupbadpix/maxrej, '
+              'x2, requiren, oldset and the branch "at most one good point left" (the code stores the int 0 as coefficients; the model refuses) are '
+              'outside the model; when iterfit gives up (fewer good points than nord, fit status -2) it returns the initial all-True mask - '
+              'excluded from nonpositive_never_used and from the oracle. The optimality statement rests on the C09 theorems (fit_is_optimum / '
+              'fit_optimum_sorted: LAPACK by contract only; the Rows hypothesis is discharged for the sorted work arrays iterfit hands to fit). '
               'Theorems are over exact ordered fields; residuals within 1e-6 of a limit and ill-conditioned fits are not judged.')
